@@ -411,7 +411,8 @@ class Ctx:
         return True
 
     def finish(self):
-        os.makedirs(os.path.join(ROOT, "evidence"), exist_ok=True)
+        evdir = os.environ.get("VERIF_EVIDENCE_DIR") or os.path.join(ROOT, "evidence")
+        os.makedirs(evdir, exist_ok=True)
         os.makedirs(os.path.join(ROOT, "replays"), exist_ok=True)
         for sig, what in self.known_hits:
             print("KNOWN-FINDING: property=%s %s" % (self.prop, what))
@@ -439,7 +440,7 @@ class Ctx:
               "coverage": self.coverage, "assumptions": self.assumptions,
               "wall_s": round(time.time() - self.t0, 2), "violations": len(seen),
               "known_findings_hit": [w for _, w in self.known_hits]}
-        json.dump(ev, open(os.path.join(ROOT, "evidence", self.prop + ".json"), "w"), indent=1, default=str)
+        json.dump(ev, open(os.path.join(evdir, self.prop + ".json"), "w"), indent=1, default=str)
         return rc
 
 
